@@ -40,6 +40,10 @@ type PredSpec struct {
 	// ErrAsBool lists methods returning `error` that are translated to Bool:
 	// `return nil` ↦ true, `return fmt.Errorf(…)` / `errors.New(…)` ↦ false.
 	ErrAsBool []string `json:"err_as_bool"`
+	// ForceNow lists methods that get the `(now : Nat)` clock parameter even if their current body does not
+	// read the clock, so that a model calling them keeps compiling when a time check is dropped from the source
+	// (the correspondence run then shows the difference instead of a build failure).
+	ForceNow []string `json:"force_now"`
 }
 
 type SkelSpec struct {
@@ -414,6 +418,11 @@ func (c *predCtx) expr(e ast.Expr) string {
 var usesNowMemo = map[string]bool{}
 
 func (c *predCtx) usesNow(method string) bool {
+	for _, f := range c.spec.ForceNow {
+		if f == method {
+			return true
+		}
+	}
 	key := c.spec.NS + "." + method
 	if v, ok := usesNowMemo[key]; ok {
 		return v
